@@ -98,13 +98,25 @@ extern "C" int harness_main() {
 #endif
   // a declared source may be missing
   std::vector<std::string> src = split_words(sc->sources);
+#ifdef WIDE_EXIT_CODES
+  int missing = 0;       // (the exit-code jobs vary the codes; missing sources and touched outputs are varied by the other C05 jobs)
+#else
   int missing = verif_choice("missing_source", (int)src.size() + 1);
+#endif
   if (missing > 0) g_tree->remove(src[missing - 1]);
   InvocationOpts o; o.targets = symbolic_targets(sc, "request_target");
+#ifdef WIDE_EXIT_CODES
+  o.run.parallelism = 1 + verif_choice("jobs_minus_1", 2);
+  int k = verif_bool("keep_going_unlimited") ? 2 : 0;             // -k 1, -k 0 (unlimited)
+#else
   o.run.parallelism = 1 + verif_choice("jobs_minus_1", 3);
   int k = verif_choice("keep_going", 3);             // -k 1, -k 2, -k 0 (unlimited)
+#endif
   o.failures_allowed = k == 2 ? 1000000 : k + 1;
   o.run.may_fail = true; o.run.failed_touch = true; o.run.sym_exit_code = true;
+#ifdef WIDE_EXIT_CODES
+  o.run.failed_touch = false;
+#endif
 #ifdef WITH_JOBSERVER
   o.token_pool = verif_choice("jobserver_tokens", 2);      // the implicit slot plus 0..1 explicit tokens
 #endif
